@@ -225,7 +225,12 @@ impl CommandParser {
                                             }
                                         })
                                         .collect();
-                                    format!("{}<{}>", segment.ident, inner_types.join(", "))
+                                    if inner_types.is_empty() {
+                                        // Only lifetime or const arguments: Borrowed<'_>, Buf<4>
+                                        segment.ident.to_string()
+                                    } else {
+                                        format!("{}<{}>", segment.ident, inner_types.join(", "))
+                                    }
                                 }
                                 _ => segment.ident.to_string(),
                             }
